@@ -196,6 +196,10 @@ func (ex *Exec) tryIfConv(fr *frame, cur *ssa.BasicBlock, c *Term) (*ssa.BasicBl
 		case BoolV:
 			vals[phi] = BoolV{tf.Ite(cond, a.T, vc.(BoolV).T)}
 		case IntV:
+			// integer merges are min/max-like selections: forking keeps the per-path arithmetic linear
+			if !ex.eng.ifConvInts {
+				return nil, false
+			}
 			vals[phi] = IntV{tf.Ite(cond, a.T, vc.(IntV).T)}
 		default:
 			return nil, false
